@@ -63,12 +63,18 @@ func parseDocker(raw string, kind Kind, first bool) (*URL, error) {
 	// username specified. Ideally we'd want also to break on any character that
 	// isn't allowed in a username, but that isn't well-defined, even for POSIX
 	// (it's effectively determined by a configurable regular expression -
-	// NAME_REGEX).
+	// NAME_REGEX). We enforce that if a username is specified, that it is
+	// non-empty (as for SCP-style SSH URLs), because a URL with an empty
+	// username and a container name containing '@' couldn't be formatted in a
+	// way that parses back to the same URL.
 	var username string
 	for i, r := range raw {
 		if r == splitCharacter {
 			break
 		} else if r == '@' {
+			if i == 0 {
+				return nil, errors.New("empty username specified")
+			}
 			username = raw[:i]
 			raw = raw[i+1:]
 			break
